@@ -22,8 +22,18 @@ MUTANTS = [
     {'name': 'gumbel-h-complement', 'rule': 'D4.values', 'file': GU, 'old': "            return p1 * p2 * p3 / V\n", 'new': "            return -p1 * p2 * p3 / V\n"},
     {'name': 'frank-h-shortcut-reactivated', 'rule': 'D5.shortcut', 'file': F, 'old': "        if self.theta == 0:\n            return V\n\n        else:\n            num = self._g(U) * self._g(V) + self._g(U)", 'new': "        if np.isclose(self.theta, 0, atol=1e-3):\n            return V\n\n        else:\n            num = self._g(U) * self._g(V) + self._g(U)"},
     {'name': 'frank-pdf-shortcut-reactivated', 'rule': 'D5.shortcut', 'file': F, 'old': "        if self.theta == 0:\n            return U * V\n\n        else:\n            num = (-self.theta", 'new': "        if abs(self.theta) < 1e-6:\n            return U * V\n\n        else:\n            num = (-self.theta"},
+    {'name': 'fd-perturbs-u-column', 'rule': 'D6.fd', 'file': 'bivariate/base.py', 'old': "        X_prime[:, 1] += delta", 'new': "        X_prime[:, 0] += delta"},
+    {'name': 'fd-no-copy', 'rule': 'D6.fd', 'file': 'bivariate/base.py', 'old': "        X_prime = X.copy()", 'new': "        X_prime = X"},
+    {'name': 'fd-huge-step', 'rule': 'D6.fd', 'file': 'bivariate/base.py', 'old': "        delta = 0.0001 * delta", 'new': "        delta = delta / 0.0001"},
+    {'name': 'fd-zero-step-half-the-square', 'rule': 'D6.fd', 'file': 'bivariate/base.py', 'old': "        delta = -2 * (X[:, 1] > 0.5) + 1", 'new': "        delta = -1 * (X[:, 1] > 0.5) + 1"},
+    {'name': 'fd-sum-instead-of-difference', 'rule': 'D6.fd', 'file': 'bivariate/base.py', 'old': "        return (f_prime - f) / delta", 'new': "        return (f_prime + f) / delta"},
+    {'name': 'fd-times-step', 'rule': 'D6.fd', 'file': 'bivariate/base.py', 'old': "        return (f_prime - f) / delta", 'new': "        return (f_prime - f) * delta"},
+    {'name': 'fd-divided-by-other-step', 'rule': 'D6.fd', 'file': 'bivariate/base.py', 'old': "        return (f_prime - f) / delta", 'new': "        return (f_prime - f) / 0.001"},
 ]
 REWRITES = [
+    {'name': 'fd-other-small-step', 'file': 'bivariate/base.py', 'old': "        delta = 0.0001 * delta", 'new': "        delta = 0.0002 * delta"},
+    {'name': 'fd-backward-quotient', 'file': 'bivariate/base.py', 'old': "        return (f_prime - f) / delta", 'new': "        return (f - f_prime) / -delta"},
+    {'name': 'fd-where-sign', 'file': 'bivariate/base.py', 'old': "        delta = -2 * (X[:, 1] > 0.5) + 1\n        delta = 0.0001 * delta", 'new': "        delta = np.where(X[:, 1] > 0.5, -0.0001, 0.0001)"},
     {'name': 'frank-pdf-commuted', 'file': F, 'old': "aux = self._g(U) * self._g(V) + self._g(1)", 'new': "aux = self._g(1) + self._g(V) * self._g(U)"},
     {'name': 'clayton-pdf-operators', 'file': C, 'old': "        a = (self.theta + 1) * np.power(U * V, -(self.theta + 1))", 'new': "        a = (self.theta + 1) * (V * U) ** (-(self.theta + 1))"},
     {'name': 'gumbel-independence-ones-like', 'file': GU, 'old': "            return np.ones(len(U))\n\n        else:\n            a = np.power(U * V, -1)", 'new': "            return np.ones_like(U)\n\n        else:\n            a = 1 / (U * V)"},
